@@ -153,6 +153,12 @@ TEMPLATES = [
     ((('lit', 'a'), ('q',), ('set', False, (('r', '%', 'z'),)), ('star',)), '', ['ab/', 'ab/c', 'abc', 'abcd', 'a//', 'ab5']),
 ]
 
+# every spelling of a separator run (plain and escaped separators in any order) is one separator
+for _sep in sorted(set(gen.SEPS)):
+    TEMPLATES.append(((('lit', 'a'), ('sep', _sep), ('lit', 'b')), '', ['a/b', 'a//b', 'ab', 'a/b/', 'a///b', 'a/']))
+    TEMPLATES.append(((('gstar',), ('sep', _sep), ('lit', 'b')), '', ['b', 'a/b', 'a//b', 'x/a/b', 'ab']))
+    TEMPLATES.append(((('lit', 'a'), ('sep', _sep)), '', ['a', 'a/', 'a//', 'a/b']))
+
 
 def run(ctx):
     quick = ctx.quick
